@@ -57,7 +57,16 @@ func hostileHost(r *ref.R) string {
 	case 3:
 		return ref.Pick(r, []string{"[::1]", "[::1]:80", "[", "]", "[]", "[]:", ":", "::", ":80", "a:", "a:8x", "[::1", "::1]", "a.com:99999999999999999999", "example.net", "www.example.net", "EXAMPLE.net:80", "[:80", "[:"})
 	case 4:
-		return strings.Repeat("a.", r.Range(1, 3000)) + "com"
+		h := strings.Repeat("a.", r.Range(1, 3000)) + "com"
+		switch r.Intn(4) { // long names in capitals, partly or wholly; with a port; bracketed
+		case 0:
+			h = strings.ToUpper(h)
+		case 1:
+			h = h[:len(h)/2] + strings.ToUpper(h[len(h)/2:])
+		case 2:
+			h = "Sub." + h + ":8080"
+		}
+		return h
 	default:
 		return ref.Pick(r, []string{"a.com", "API.example.com", "7.example.com", "x.y.example.com:8080", "EXAMPLE.COM", "b.com.", "é.com"})
 	}
